@@ -68,7 +68,10 @@ def execute(ctx, case):
     both = len(pos) > 0 and len(neg) > 0
     # ---- swap ------------------------------------------------------------------------------------
     if case["_seed"] % 2 and both:  # the parent has a query history before it is swapped
-        s.eer()
+        try:
+            s.eer()
+        except ValueError:
+            pass  # the root search gives up when threshold differences overflow (scores near the float range limits); a warm-up, not a check
         for m in METRICS:
             getattr(s, "threshold_at_" + m)(rs[:3])
     sw = s.swap()
